@@ -5,14 +5,20 @@ package main
 import (
 	"bytes"
 	"context"
+	"crypto/md5"
+	"crypto/sha256"
 	"database/sql"
+	"encoding/base64"
+	"encoding/binary"
 	"encoding/hex"
 	"fmt"
+	"hash/crc32"
 	"io"
 	"log/slog"
 	"os"
 	"path/filepath"
 	"sort"
+	"strconv"
 	"strings"
 	"sync"
 
@@ -30,16 +36,26 @@ import (
 // C39 — integrity validator. Case line: <mode> <objects>   (see coq/Model/Integrity.v)
 //
 //	mode    V = report only, D = delete corrupted (force)
-//	objects comma separated  <kind>:<faults>   kind  S  PutObject (one part)      E  PutObject of empty content
-//	                                                 M1 M2 M3  multipart upload with 1/2/3 parts
-//	                                                 A  PutObject followed by AppendObject (two parts)
-//	        faults: one letter per part  N intact, F one byte flipped, T truncated by one byte, X file deleted
+//	objects comma separated  <kind>:<faults>[:<tamper>] ; object i is created i-th, <j> refers to an EARLIER object
+//	  kind  S   PutObject                         E   PutObject of empty content
+//	        T<j> PutObject of the same bytes as PutObject j (deduplicated: shares j's part)
+//	        M<n> F<n> C<n>  multipart upload with n=1..3 parts, checksum type unspecified / FULL_OBJECT / COMPOSITE
+//	        A   PutObject + AppendObject (2 parts)      A1  AppendObject to a new key (1 part)
+//	        AC  COMPOSITE multipart with 2 parts + AppendObject (3 parts)
+//	        K<j> full CopyObject of j (shares j's parts)
+//	        R<j> ranged CopyObject of the whole byte range of j (one part; shares j's part when j has one part)
+//	        P<j> ranged CopyObject of bytes [1, size-1) of j (one fresh part)
+//	  faults  one letter per part: N intact, F one byte flipped, T truncated by one byte, X file deleted; a part file is
+//	          modified at most once (the first fault that reaches it, in object/part order, wins)
+//	  tamper  (optional) the object's RECORDED checksums are changed in the database:
+//	          e  ETag: last character changed          c  CRC32 value: first character changed
+//	          n  part-count suffix "-N" of ETag (and of a composite CRC32) replaced by "-9"
+//	          t  checksum type switched COMPOSITE <-> FULL_OBJECT
 //
 // Output: <ValidateAll> | <per-object>
 //
-//	ValidateAll = ERR (returned an error)  or  one letter per object, from the report of the REAL ValidateAll checked
-//	              against the storage afterwards: - success, R reported, D reported + ActionTaken "Deleted" + gone,
-//	              ? absent from the report, ! ActionTaken and the object's presence afterwards disagree;
+//	ValidateAll = ERR  or  one letter per object from the report of the REAL ValidateAll checked against the storage
+//	              afterwards (- success, R reported, D reported+"Deleted"+gone, ? absent, ! action and presence disagree)
 //	              followed by :<TotalObjects>/<FailedObjects>/<DeletedObjects>
 //	per-object  = validateObject (before ValidateAll ran) with the part store passed explicitly: - success, R reported
 type c39 struct{}
@@ -48,41 +64,144 @@ func init() { register("C39", c39{}) }
 
 func (c39) Parallel() bool { return true }
 
-var c39Kinds = []string{"S", "S", "S", "E", "M1", "M2", "M2", "M3", "A"}
-
-func c39Parts(kind string) int {
-	switch kind {
-	case "M2", "A":
-		return 2
-	case "M3":
-		return 3
-	}
-	return 1
+type c39Obj struct {
+	kind    string // S E T M F C A A1 AC K R P
+	n       int    // part count for M F C
+	ref     int    // for T K R P
+	faults  string
+	tamper  string
+	key     storage.ObjectKey
+	nparts  int
+	content []byte // whole content
+	parts   [][]byte
+	// expected recorded checksums (independent computation)
+	expETag, expCRC, expSHA, expType string // "" = nil expected / not checked ("?" for type = unknown)
+	corrupt bool
+	files   []string
 }
 
+func c39ParseObj(t string) c39Obj {
+	f := strings.Split(t, ":")
+	o := c39Obj{faults: f[1], ref: -1}
+	if len(f) > 2 {
+		o.tamper = f[2]
+	}
+	k := f[0]
+	switch {
+	case k == "S" || k == "E" || k == "A" || k == "A1" || k == "AC":
+		o.kind = k
+	case k[0] == 'M' || k[0] == 'F' || k[0] == 'C':
+		o.kind = k[:1]
+		o.n, _ = strconv.Atoi(k[1:])
+	default: // T K R P
+		o.kind = k[:1]
+		o.ref, _ = strconv.Atoi(k[1:])
+	}
+	return o
+}
+
+func c39Content(seed, part int, size int) []byte {
+	b := make([]byte, size)
+	x := uint32(seed*7919 + part*104729 + 12345)
+	for j := range b {
+		x = x*1664525 + 1013904223
+		b[j] = byte(x >> 24)
+	}
+	return b
+}
+
+// ---- generator -------------------------------------------------------------------------------
 func (c39) Gen(r *Rng, tier string, n int) []string {
 	cases := make([]string, 0, n)
 	for len(cases) < n {
-		no := 2 + r.Intn(9)
-		objs := make([]string, no)
-		for i := range objs {
-			kind := c39Kinds[r.Intn(len(c39Kinds))]
-			np := c39Parts(kind)
-			fl := make([]byte, np)
-			for j := range fl {
-				fl[j] = 'N'
+		no := 3 + r.Intn(8)
+		kinds := make([]string, 0, no)
+		nparts := make([]int, 0, no)
+		orig := []int{}     // indices of non-copy objects with size >= 3 (ranged copy sources)
+		puts := []int{}     // indices of S objects
+		usedR := map[int]bool{}
+		usedP := map[int]bool{}
+		for i := 0; i < no; i++ {
+			var k string
+			np := 1
+			switch x := r.Intn(20); {
+			case x < 3:
+				k = "S"
+			case x == 3:
+				k = "E"
+			case x == 4 && len(puts) > 0:
+				k = fmt.Sprintf("T%d", puts[r.Intn(len(puts))])
+			case x < 8:
+				np = 1 + r.Intn(3)
+				if r.Chance(70) && np == 1 {
+					np = 2
+				}
+				k = fmt.Sprintf("C%d", np)
+			case x < 10:
+				np = 1 + r.Intn(3)
+				k = fmt.Sprintf("%s%d", []string{"M", "F"}[r.Intn(2)], np)
+			case x == 10:
+				k, np = "A", 2
+			case x == 11:
+				if r.Bool() {
+					k, np = "A1", 1
+				} else {
+					k, np = "AC", 3
+				}
+			case x < 16 && i > 0:
+				j := r.Intn(i)
+				k, np = fmt.Sprintf("K%d", j), nparts[j]
+			case x < 18 && len(orig) > 0:
+				j := orig[r.Intn(len(orig))]
+				if usedR[j] {
+					k = "S"
+				} else {
+					usedR[j] = true
+					k = fmt.Sprintf("R%d", j)
+				}
+			case len(orig) > 0:
+				j := orig[r.Intn(len(orig))]
+				if usedP[j] {
+					k = "S"
+				} else {
+					usedP[j] = true
+					k = fmt.Sprintf("P%d", j)
+				}
+			default:
+				k = "S"
 			}
-			if r.Chance(45) {
+			if k == "S" {
+				puts = append(puts, i)
+			}
+			if k[0] != 'K' && k[0] != 'R' && k[0] != 'P' && k[0] != 'T' && k != "E" {
+				orig = append(orig, i)
+			}
+			kinds = append(kinds, k)
+			nparts = append(nparts, np)
+		}
+		objs := make([]string, no)
+		for i, k := range kinds {
+			fl := bytes.Repeat([]byte{'N'}, nparts[i])
+			if r.Chance(30) {
 				for j := range fl {
-					if r.Chance(60) || np == 1 {
+					if r.Chance(60) || len(fl) == 1 {
 						fl[j] = "FTX"[r.Intn(3)]
 					}
 				}
-				if kind == "E" {
+				if k == "E" {
 					fl[0] = "NX"[r.Intn(2)]
 				}
 			}
-			objs[i] = kind + ":" + string(fl)
+			o := k + ":" + string(fl)
+			if r.Chance(10) && k != "E" {
+				tm := "ecn"[r.Intn(3)]
+				multi := (k[0] == 'C' || k[0] == 'F') && nparts[i] >= 2
+				if multi && r.Chance(60) {
+					tm = 't'
+				}
+				o += ":" + string(tm)
+			}
+			objs[i] = o
 		}
 		mode := "V"
 		if r.Chance(40) {
@@ -93,22 +212,87 @@ func (c39) Gen(r *Rng, tier string, n int) []string {
 	return cases
 }
 
-func c39Content(obj, part int, size int) []byte {
-	b := make([]byte, size)
-	for j := range b {
-		b[j] = byte(obj*53 + part*17 + j*7 + 1)
+// ---- independent checksum arithmetic ------------------------------------------------------------
+func c39CRC(b []byte) []byte {
+	var out [4]byte
+	binary.BigEndian.PutUint32(out[:], crc32.ChecksumIEEE(b))
+	return out[:]
+}
+func c39B64(b []byte) string { return base64.StdEncoding.EncodeToString(b) }
+func c39Unquote(s string) string {
+	return strings.Trim(s, "\"")
+}
+func c39MultiETag(parts [][]byte) string {
+	h := md5.New()
+	for _, p := range parts {
+		s := md5.Sum(p)
+		h.Write(s[:])
 	}
-	return b
+	return hex.EncodeToString(h.Sum(nil)) + "-" + strconv.Itoa(len(parts))
+}
+func (o *c39Obj) expectPlain() {
+	s := md5.Sum(o.content)
+	o.expETag = hex.EncodeToString(s[:])
+	o.expCRC = c39B64(c39CRC(o.content))
+	h := sha256.Sum256(o.content)
+	o.expSHA = c39B64(h[:])
+	o.expType = "?"
+}
+func (o *c39Obj) expectMultipart(typ string) {
+	o.expETag = c39MultiETag(o.parts)
+	o.expType = typ
+	switch typ {
+	case "COMPOSITE":
+		hc, hs := crc32.NewIEEE(), sha256.New()
+		for _, p := range o.parts {
+			hc.Write(c39CRC(p))
+			s := sha256.Sum256(p)
+			hs.Write(s[:])
+		}
+		o.expCRC = c39B64(hc.Sum(nil)) + "-" + strconv.Itoa(len(o.parts))
+		o.expSHA = c39B64(hs.Sum(nil)) + "-" + strconv.Itoa(len(o.parts))
+	case "FULL_OBJECT":
+		o.expCRC = c39B64(c39CRC(o.content))
+		o.expSHA = ""
+	}
 }
 
 var c39Quiet sync.Once
+
+// a migrated empty database is built once per process and copied for every case (the ~40 schema
+// migrations dominate the cost of a fresh database)
+var c39TemplateOnce sync.Once
+var c39Template []byte
+
+func c39FreshDB(path string) {
+	c39TemplateOnce.Do(func() {
+		tp := path + ".template"
+		db, err := sqlite.OpenDatabase(tp)
+		if err != nil {
+			panic(err)
+		}
+		db.Close()
+		b, err := os.ReadFile(tp)
+		if err != nil {
+			panic(err)
+		}
+		c39Template = b
+		for _, suf := range []string{"", "-wal", "-shm"} {
+			os.Remove(tp + suf)
+		}
+	})
+	if err := os.WriteFile(path, c39Template, 0o600); err != nil {
+		panic(err)
+	}
+}
 
 func (c39) Run(in string, scratch string) Result {
 	c39Quiet.Do(func() { slog.SetDefault(slog.New(slog.NewTextHandler(io.Discard, nil))) })
 	f := strings.Split(in, " ")
 	mode := f[0]
-	objs := strings.Split(f[1], ",")
+	toks := strings.Split(f[1], ",")
 	ctx := context.Background()
+	c39FreshDB(filepath.Join(scratch, "pithos.db"))
 	db, err := sqlite.OpenDatabase(filepath.Join(scratch, "pithos.db"))
 	if err != nil {
 		panic(err)
@@ -143,50 +327,119 @@ func (c39) Run(in string, scratch string) Result {
 	bucket := storage.MustNewBucketName("bucket")
 	must(st.CreateBucket(ctx, bucket))
 
-	type objInfo struct {
-		key     storage.ObjectKey
-		kind    string
-		faults  string
-		corrupt bool
-	}
-	infos := make([]objInfo, len(objs))
-	for i, o := range objs {
-		kf := strings.Split(o, ":")
-		kind, faults := kf[0], kf[1]
-		key := storage.MustNewObjectKey(fmt.Sprintf("obj-%02d", i))
-		infos[i] = objInfo{key: key, kind: kind, faults: faults}
-		switch kind {
-		case "S":
-			_, err := st.PutObject(ctx, bucket, key, nil, bytes.NewReader(c39Content(i, 0, 40+i)), nil, nil)
-			must(err)
-		case "E":
-			_, err := st.PutObject(ctx, bucket, key, nil, bytes.NewReader(nil), nil, nil)
-			must(err)
-		case "A":
-			_, err := st.PutObject(ctx, bucket, key, nil, bytes.NewReader(c39Content(i, 0, 30+i)), nil, nil)
-			must(err)
-			_, err = st.AppendObject(ctx, bucket, key, bytes.NewReader(c39Content(i, 1, 20+i)), nil, nil)
-			must(err)
-		default: // M1..M3
-			np := c39Parts(kind)
-			up, err := st.CreateMultipartUpload(ctx, bucket, key, nil, nil, nil)
-			must(err)
-			for p := 0; p < np; p++ {
-				_, err := st.UploadPart(ctx, bucket, key, up.UploadId, int32(p+1), bytes.NewReader(c39Content(i, p, 25+i+p)), nil)
-				must(err)
-			}
-			_, err = st.CompleteMultipartUpload(ctx, bucket, key, up.UploadId, nil, nil)
+	objs := make([]c39Obj, len(toks))
+	multipart := func(o *c39Obj, i int, typ *string, np int) {
+		up, err := st.CreateMultipartUpload(ctx, bucket, o.key, nil, typ, nil)
+		must(err)
+		for p := 0; p < np; p++ {
+			b := c39Content(i, p, 25+i+p)
+			o.parts = append(o.parts, b)
+			o.content = append(o.content, b...)
+			_, err := st.UploadPart(ctx, bucket, o.key, up.UploadId, int32(p+1), bytes.NewReader(b), nil)
 			must(err)
 		}
+		_, err = st.CompleteMultipartUpload(ctx, bucket, o.key, up.UploadId, nil, nil)
+		must(err)
 	}
-	// ---- corrupt the chosen part files on disk (identical contents share one part: an object is
-	// corrupted iff one of the part files it references was modified)
+	for i, t := range toks {
+		o := c39ParseObj(t)
+		o.key = storage.MustNewObjectKey(fmt.Sprintf("obj-%02d", i))
+		switch o.kind {
+		case "S", "E", "T":
+			switch o.kind {
+			case "S":
+				o.content = c39Content(i, 0, 40+i)
+			case "T":
+				o.content = objs[o.ref].content
+			}
+			o.parts = [][]byte{o.content}
+			_, err := st.PutObject(ctx, bucket, o.key, nil, bytes.NewReader(o.content), nil, nil)
+			must(err)
+			o.expectPlain()
+		case "M":
+			multipart(&o, i, nil, o.n)
+			o.expectMultipart("FULL_OBJECT") // an unspecified checksum type is recorded/validated as FULL_OBJECT
+			o.expType = "?"
+		case "F":
+			typ := storage.ChecksumTypeFullObject
+			multipart(&o, i, &typ, o.n)
+			o.expectMultipart("FULL_OBJECT")
+		case "C":
+			typ := storage.ChecksumTypeComposite
+			multipart(&o, i, &typ, o.n)
+			o.expectMultipart("COMPOSITE")
+		case "A", "A1", "AC":
+			switch o.kind {
+			case "A":
+				b := c39Content(i, 0, 30+i)
+				o.parts, o.content = [][]byte{b}, append([]byte{}, b...)
+				_, err := st.PutObject(ctx, bucket, o.key, nil, bytes.NewReader(b), nil, nil)
+				must(err)
+			case "AC":
+				typ := storage.ChecksumTypeComposite
+				multipart(&o, i, &typ, 2)
+			}
+			b := c39Content(i, 7, 20+i)
+			o.parts = append(o.parts, b)
+			o.content = append(o.content, b...)
+			_, err := st.AppendObject(ctx, bucket, o.key, bytes.NewReader(b), nil, nil)
+			must(err)
+			o.expETag, o.expCRC, o.expSHA, o.expType = c39MultiETag(o.parts), "", "", "FULL_OBJECT"
+		case "K":
+			src := objs[o.ref]
+			_, err := st.CopyObject(ctx, bucket, src.key, bucket, o.key, nil)
+			must(err)
+			o.parts, o.content = src.parts, src.content
+			o.expETag, o.expCRC, o.expSHA, o.expType = src.expETag, src.expCRC, src.expSHA, src.expType
+		case "R", "P":
+			src := objs[o.ref]
+			s, e := int64(0), int64(len(src.content))
+			if o.kind == "P" {
+				s, e = 1, e-1
+			}
+			_, err := st.CopyObject(ctx, bucket, src.key, bucket, o.key, &storage.CopyObjectOptions{Range: &storage.ByteRange{Start: &s, End: &e}})
+			must(err)
+			o.content = src.content[s:e]
+			o.parts = [][]byte{o.content}
+			o.expectPlain()
+			o.expType = "FULL_OBJECT"
+		}
+		o.nparts = len(o.parts)
+		objs[i] = o
+	}
+	// ---- what the storage recorded, against the independent arithmetic
+	recorded := "OK"
+	listed0, err := storage.ListAllObjectsOfBucket(ctx, st, bucket)
+	must(err)
+	for _, lo := range listed0 {
+		var idx int
+		fmt.Sscanf(lo.Key.String(), "obj-%02d", &idx)
+		o := &objs[idx]
+		opt := func(p *string) string {
+			if p == nil {
+				return ""
+			}
+			return *p
+		}
+		switch {
+		case c39Unquote(lo.ETag) != o.expETag:
+			recorded = fmt.Sprintf("FAIL:object %d (%s): recorded ETag %s, bytes say %s", idx, toks[idx], lo.ETag, o.expETag)
+		case opt(lo.ChecksumCRC32) != o.expCRC:
+			recorded = fmt.Sprintf("FAIL:object %d (%s): recorded CRC32 %q, bytes and checksum type say %q", idx, toks[idx], opt(lo.ChecksumCRC32), o.expCRC)
+		case opt(lo.ChecksumSHA256) != o.expSHA:
+			recorded = fmt.Sprintf("FAIL:object %d (%s): recorded SHA256 %q, bytes and checksum type say %q", idx, toks[idx], opt(lo.ChecksumSHA256), o.expSHA)
+		case o.expType != "?" && opt(lo.ChecksumType) != o.expType:
+			recorded = fmt.Sprintf("FAIL:object %d (%s): recorded checksum type %q, expected %q", idx, toks[idx], opt(lo.ChecksumType), o.expType)
+		}
+	}
+	// ---- corrupt part files (each file at most once) and tamper recorded checksums
 	modified := map[string]bool{}
-	objFiles := make([][]string, len(infos))
-	for i := range infos {
+	for i := range objs {
 		var files []string
+		var etag, ctype string
+		var crc *string
 		err := database.WithTx(ctx, db, &sql.TxOptions{ReadOnly: true}, func(ctx context.Context, tx database.Tx) error {
-			oe, err := objectRepository.FindObjectByBucketNameAndKey(ctx, tx.SqlTx(), bucket, infos[i].key)
+			oe, err := objectRepository.FindObjectByBucketNameAndKey(ctx, tx.SqlTx(), bucket, objs[i].key)
 			if err != nil {
 				return err
 			}
@@ -197,52 +450,139 @@ func (c39) Run(in string, scratch string) Result {
 			for _, p := range parts {
 				files = append(files, filepath.Join(partDir, hex.EncodeToString(p.PartId.Bytes())))
 			}
+			etag, crc = oe.ETag, oe.ChecksumCRC32
+			if oe.ChecksumType != nil {
+				ctype = *oe.ChecksumType
+			}
 			return nil
 		})
 		must(err)
-		if len(files) != len(infos[i].faults) {
-			return Result{Out: fmt.Sprintf("SETUP-MISMATCH obj %d kind %s has %d parts", i, infos[i].kind, len(files)), Oracle: "FAIL:setup: unexpected number of parts", Tags: []string{"setup-error"}}
+		if len(files) != len(objs[i].faults) {
+			return Result{Out: fmt.Sprintf("SETUP-MISMATCH obj %d %s has %d parts", i, toks[i], len(files)), Oracle: "FAIL:setup: unexpected number of parts", Tags: []string{"setup-error"}}
 		}
-		objFiles[i] = files
+		objs[i].files = files
 		for p, fn := range files {
-			switch infos[i].faults[p] {
+			if modified[fn] || objs[i].faults[p] == 'N' {
+				continue
+			}
+			b, err := os.ReadFile(fn)
+			if err != nil {
+				continue
+			}
+			switch objs[i].faults[p] {
 			case 'F':
-				b, err := os.ReadFile(fn)
-				if err == nil && len(b) > 0 {
+				if len(b) > 0 {
 					b[len(b)/2] ^= 0x20
 					must(os.WriteFile(fn, b, 0o600))
 					modified[fn] = true
 				}
 			case 'T':
-				b, err := os.ReadFile(fn)
-				if err == nil && len(b) > 0 {
+				if len(b) > 0 {
 					must(os.WriteFile(fn, b[:len(b)-1], 0o600))
 					modified[fn] = true
 				}
 			case 'X':
-				_ = os.Remove(fn)
+				must(os.Remove(fn))
 				modified[fn] = true
 			}
 		}
+		if objs[i].tamper != "" {
+			swapLast := func(s string) string {
+				q := strings.HasSuffix(s, "\"")
+				s = strings.TrimSuffix(s, "\"")
+				c := byte('0')
+				if s[len(s)-1] == '0' {
+					c = '1'
+				}
+				s = s[:len(s)-1] + string(c)
+				if q {
+					s += "\""
+				}
+				return s
+			}
+			suffix9 := func(s string) string {
+				q := strings.HasSuffix(s, "\"")
+				s = strings.TrimSuffix(s, "\"")
+				if k := strings.LastIndex(s, "-"); k >= 0 {
+					s = s[:k] + "-9"
+				} else {
+					s += "-9"
+				}
+				if q {
+					s += "\""
+				}
+				return s
+			}
+			col, val := "", ""
+			var col2, val2 string
+			switch objs[i].tamper {
+			case "e":
+				col, val = "etag", swapLast(etag)
+			case "c":
+				if crc != nil {
+					c := "A"
+					if (*crc)[0] == 'A' {
+						c = "B"
+					}
+					col, val = "checksum_crc32", c+(*crc)[1:]
+				}
+			case "n":
+				col, val = "etag", suffix9(etag)
+				if crc != nil && strings.Contains(*crc, "-") {
+					col2, val2 = "checksum_crc32", suffix9(*crc)
+				}
+			case "t":
+				nt := "COMPOSITE"
+				if ctype == "COMPOSITE" {
+					nt = "FULL_OBJECT"
+				}
+				col, val = "checksum_type", nt
+			}
+			if col != "" {
+				err := database.WithTx(ctx, db, &sql.TxOptions{}, func(ctx context.Context, tx database.Tx) error {
+					if _, err := tx.SqlTx().ExecContext(ctx, "UPDATE objects SET "+col+" = ? WHERE key = ?", val, objs[i].key.String()); err != nil {
+						return err
+					}
+					if col2 != "" {
+						_, err := tx.SqlTx().ExecContext(ctx, "UPDATE objects SET "+col2+" = ? WHERE key = ?", val2, objs[i].key.String())
+						return err
+					}
+					return nil
+				})
+				must(err)
+			}
+		}
 	}
-	for i := range infos {
-		for _, fn := range objFiles[i] {
+	// expected verdict (independent of the validator): a referenced part file was modified, or the recorded object
+	// checksums were changed in a way that no longer describes the parts
+	for i := range objs {
+		for _, fn := range objs[i].files {
 			if modified[fn] {
-				infos[i].corrupt = true
+				objs[i].corrupt = true
+			}
+		}
+		o := &objs[i]
+		switch o.tamper {
+		case "e", "n":
+			o.corrupt = true
+		case "c":
+			if o.expCRC != "" {
+				o.corrupt = true
+			}
+		case "t":
+			// only typed multi-part checksum values depend on the type
+			if o.nparts >= 2 && o.expCRC != "" {
+				o.corrupt = true
 			}
 		}
 	}
 	dbc := config.NewDbContainer()
 	dbc.AddDb(db)
 	v := integrity.NewValidator(st, dbc, mode == "D", true)
-	// ---- per object validation with the part store handed in (works on the unchanged tree)
 	listed, err := storage.ListAllObjectsOfBucket(ctx, st, bucket)
 	must(err)
 	sort.Slice(listed, func(a, b int) bool { return listed[a].Key.String() < listed[b].Key.String() })
-	per := make([]byte, len(infos))
-	for i := range per {
-		per[i] = '?'
-	}
+	per := bytes.Repeat([]byte{'?'}, len(objs))
 	for _, o := range listed {
 		var idx int
 		fmt.Sscanf(o.Key.String(), "obj-%02d", &idx)
@@ -253,7 +593,7 @@ func (c39) Run(in string, scratch string) Result {
 		} else {
 			per[idx] = 'R'
 			if os.Getenv("C39_DEBUG") != "" {
-				fmt.Fprintf(os.Stderr, "DEBUG %s: %s %+v %+v\n", o.Key.String(), res.ErrorType, res.PartFailures, res.ObjectFailures)
+				fmt.Fprintf(os.Stderr, "DEBUG %s %s: %s %+v %+v\n", o.Key.String(), toks[idx], res.ErrorType, res.PartFailures, res.ObjectFailures)
 			}
 		}
 	}
@@ -263,10 +603,7 @@ func (c39) Run(in string, scratch string) Result {
 	report, err := v.ValidateAll(ctx)
 	if err == nil {
 		vaOK = true
-		all := make([]byte, len(infos))
-		for i := range all {
-			all[i] = '?'
-		}
+		all := bytes.Repeat([]byte{'?'}, len(objs))
 		for _, res := range report.Results {
 			var idx int
 			fmt.Sscanf(res.ObjectKey, "obj-%02d", &idx)
@@ -279,15 +616,14 @@ func (c39) Run(in string, scratch string) Result {
 				all[idx] = 'R'
 			}
 		}
-		// an object reported as deleted must be gone, every other one must still be listed
 		after, err := storage.ListAllObjectsOfBucket(ctx, st, bucket)
 		must(err)
 		present := map[string]bool{}
 		for _, o := range after {
 			present[o.Key.String()] = true
 		}
-		for i := range infos {
-			if (all[i] == 'D') == present[infos[i].key.String()] {
+		for i := range objs {
+			if (all[i] == 'D') == present[objs[i].key.String()] {
 				all[i] = '!'
 			}
 		}
@@ -298,37 +634,42 @@ func (c39) Run(in string, scratch string) Result {
 	}
 	out := va + " | " + string(per)
 
-	// ---- direct oracle: reported set == corrupted set (chosen by the harness), deletions only of corrupted objects
-	oracle := "OK"
+	// ---- direct oracle
+	oracle := recorded
 	tags := []string{"mode-" + mode}
-	anyCorrupt, oneMulti, hasEmpty := false, false, false
-	for i, inf := range infos {
-		if inf.corrupt {
+	anyCorrupt, onePart, shared := false, false, false
+	seenFile := map[string]int{}
+	for i, o := range objs {
+		if o.corrupt {
 			anyCorrupt = true
 		}
-		if inf.kind == "M1" {
-			oneMulti = true
+		for _, fn := range o.files {
+			seenFile[fn]++
+			if seenFile[fn] > 1 {
+				shared = true
+			}
 		}
-		if inf.kind == "E" {
-			hasEmpty = true
+		// the recorded finding: objects with a multipart-style ETag and exactly one part
+		if o.nparts == 1 && strings.Contains(o.expETag, "-") {
+			onePart = true
 		}
 		if oracle != "OK" {
 			continue
 		}
 		switch {
-		case vaOK && !inf.corrupt && va[i] == 'D':
-			oracle = fmt.Sprintf("FAIL:intact object %d (%s) was DELETED by ValidateAll in delete mode", i, inf.kind)
-		case inf.corrupt && per[i] != 'R':
-			oracle = fmt.Sprintf("FAIL:corrupted object %d (%s:%s) is not reported by validateObject", i, inf.kind, inf.faults)
-		case !inf.corrupt && per[i] != '-':
-			oracle = fmt.Sprintf("FAIL:intact object %d (%s) is reported as corrupted by validateObject", i, inf.kind)
-		case vaOK && inf.corrupt && va[i] != 'R' && va[i] != 'D':
-			oracle = fmt.Sprintf("FAIL:corrupted object %d not reported by ValidateAll", i)
-		case vaOK && !inf.corrupt && va[i] != '-':
-			oracle = fmt.Sprintf("FAIL:intact object %d (%s) reported by ValidateAll", i, inf.kind)
+		case vaOK && !o.corrupt && va[i] == 'D':
+			oracle = fmt.Sprintf("FAIL:intact object %d (%s) was DELETED by ValidateAll in delete mode", i, toks[i])
+		case o.corrupt && per[i] != 'R':
+			oracle = fmt.Sprintf("FAIL:corrupted object %d (%s) is not reported by validateObject", i, toks[i])
+		case !o.corrupt && per[i] != '-':
+			oracle = fmt.Sprintf("FAIL:intact object %d (%s) is reported as corrupted by validateObject", i, toks[i])
+		case vaOK && o.corrupt && va[i] != 'R' && va[i] != 'D':
+			oracle = fmt.Sprintf("FAIL:corrupted object %d (%s) not reported by ValidateAll", i, toks[i])
+		case vaOK && !o.corrupt && va[i] != '-':
+			oracle = fmt.Sprintf("FAIL:intact object %d (%s) reported by ValidateAll", i, toks[i])
 		case vaOK && mode != "D" && va[i] == 'D':
 			oracle = fmt.Sprintf("FAIL:object %d deleted although delete mode is off", i)
-		case vaOK && mode == "D" && inf.corrupt && va[i] != 'D':
+		case vaOK && mode == "D" && o.corrupt && va[i] != 'D':
 			oracle = fmt.Sprintf("FAIL:corrupted object %d not deleted in delete mode", i)
 		}
 	}
@@ -340,11 +681,29 @@ func (c39) Run(in string, scratch string) Result {
 	} else {
 		tags = append(tags, "all-intact")
 	}
-	if oneMulti {
-		tags = append(tags, "one-part-multipart", "kf:C39-one-part-multipart-false-positive")
+	kindsSeen := map[string]bool{}
+	for _, o := range objs {
+		k := o.kind
+		if o.tamper != "" {
+			kindsSeen["tamper-"+o.tamper] = true
+		}
+		switch k {
+		case "K", "R", "P":
+			k = "copy-" + k + "-of-" + objs[o.ref].kind
+		}
+		kindsSeen["kind-"+k] = true
 	}
-	if hasEmpty {
-		tags = append(tags, "empty-object")
+	ks := []string{}
+	for k := range kindsSeen {
+		ks = append(ks, k)
+	}
+	sort.Strings(ks)
+	tags = append(tags, ks...)
+	if shared {
+		tags = append(tags, "shared-parts")
+	}
+	if onePart {
+		tags = append(tags, "one-part-multipart", "kf:C39-one-part-multipart-false-positive")
 	}
 	if vaOK && mode == "D" && anyCorrupt {
 		tags = append(tags, "deletes")
